@@ -50,7 +50,7 @@ class Emitter:
         s.gnames = {}; s.used = set()
         s.typeids = {}
         s.sites = []
-        s.icall_protos = set()
+        s.icall_protos = set(); s.redirect_protos = {}
         s.out = []
         s.report = {'functions': {}, 'externals': {}, 'globals_external': [], 'yield_sites': s.sites}
         for n in list(mod.globals) + list(mod.funcs): s.gname(n)
@@ -448,7 +448,7 @@ class Emitter:
         hdr = ['/* generated by ll2c -- do not edit */', '#include "vf_rt.h"'] + s.agg_defs + gdecl + protos
         src = ['#include "%s"' % o.hname] + gdef + [s.emit_exc_matches()] + stubs + bodies
         # agg defs may have been extended while emitting bodies: rebuild header
-        hdr = ['/* generated by ll2c -- do not edit */', '#ifndef LL2C_GEN_H', '#define LL2C_GEN_H', '#include "vf_rt.h"'] + s.agg_defs + gdecl + protos + sorted(s.icall_protos) + ['#endif']
+        hdr = ['/* generated by ll2c -- do not edit */', '#ifndef LL2C_GEN_H', '#define LL2C_GEN_H', '#include "vf_rt.h"'] + s.agg_defs + gdecl + protos + sorted(s.icall_protos) + sorted(s.redirect_protos.values()) + ['#endif']
         s.report['typeids'] = s.typeids
         return '\n'.join(hdr) + '\n', '\n'.join(src) + '\n'
     def proto_named(s, f):
@@ -469,6 +469,11 @@ class FnEmitter:
         for spec in E.o.redirect:
             cre, rest = spec.split(':', 1); a, b = rest.split('=')
             if re.search(cre, f.name): s.redirect[a] = b
+        # --redirect-re CALLER_RE:CALLEE_RE=NEW : every call from a matching caller to a matching callee goes to NEW (prototype emitted)
+        s.redirect_re = []
+        for spec in E.o.redirect_re:
+            cre, rest = spec.split(':', 1); a, b = rest.rsplit('=', 1)
+            if re.search(cre, f.name): s.redirect_re.append((re.compile(a), b))
     def lname(s, n):
         if n in s.names: return s.names[n]
         c = 'v' + cid(n)
@@ -830,6 +835,16 @@ class FnEmitter:
         fty = ins.x['fty']
         if name:
             tgt = s.redirect.get(name, None)
+            if tgt is None:
+                for cre_, new_ in s.redirect_re:
+                    if cre_.search(name) and name in E.m.funcs:
+                        tgt = new_
+                        pr = E.proto(E.m.funcs[name], new_) + ';'
+                        old = E.redirect_protos.get(new_)
+                        if old and old != pr: raise Unsupported('redirect target %s used with two signatures' % new_)
+                        E.redirect_protos[new_] = pr; E.report.setdefault('redirected', {}).setdefault(new_, [])
+                        if name not in E.report['redirected'][new_]: E.report['redirected'][new_].append(name)
+                        break
             fn = tgt if tgt else E.gname(name)
             f = E.m.funcs.get(name)
             direct = f is not None and x is callee
@@ -945,7 +960,7 @@ def main():
     ap.add_argument('input'); ap.add_argument('-o', dest='out', required=True); ap.add_argument('-H', dest='hdr')
     ap.add_argument('--report'); ap.add_argument('--extern', action='append', default=[])
     ap.add_argument('--keep'); ap.add_argument('--yield', dest='yield_re'); ap.add_argument('--redirect', action='append', default=[])
-    ap.add_argument('--no-nsw', dest='no_nsw'); ap.add_argument('--icall-hook', dest='icall_hook')
+    ap.add_argument('--redirect-re', dest='redirect_re', action='append', default=[]); ap.add_argument('--no-nsw', dest='no_nsw'); ap.add_argument('--icall-hook', dest='icall_hook')
     o = ap.parse_args()
     o.extern = set(x for e in o.extern for x in e.split(',') if x)
     o.hname = (o.hdr or re.sub(r'\.c$', '.h', o.out)).split('/')[-1]
